@@ -9,9 +9,9 @@ import (
 )
 
 var rules = map[string]string{
-	"C11": "Each case is one simulated run: a scenario (2-8 client tasks or the CLI topology producer/K parser workers/consumer; 1-3 parse->print/dump/traverse/resolve pipelines each over corpus-composed inputs, versions, callback on/off, shared or private version pointer, block-size knob, forced-GC steps) drawn from mix(VERIF_SEED,i), executed under a seeded scheduler (run-to-completion / random preemption / PCT / site-biased) that decides every task switch at instrumented yield points. Non-trivial: >=2 pipelines and >=1 preemptive switch to another task inside a library call. Distinct: distinct (scenario hash, event-log hash) pairs among the non-trivial runs.",
-	"C13": "Each case is one simulated run: one corpus-composed input, a reference table (every operation kind on its own freshly parsed tree, computed twice) and a drawn history of 1-24 print/dump(x4 option sets)/traverse/resolve operations on ONE tree; odd seeds additionally inject writer faults (error, sticky error, short write, panic at a drawn Write call), visitor aborts and forced GC. Non-trivial: >=2 operations executed and at least one operation follows an operation of a different kind. Distinct: distinct (scenario hash, event-log hash) pairs among the non-trivial runs.",
-	"C18": "Each case is one simulated run, of two kinds. pools: 1-4 tasks each owning 1-3 token/position pools with a drawn block size (1-64 dense, and 100..4096), executing drawn get/write/verify/gc operations against a reference model of every object ever returned, tasks interleaved at yield points inside Pool.Get. parse: 1-3 tasks parse corpus inputs with DefaultBlockSize set to a drawn value (1..1025), compared with the same parse at the compiled-in size. Non-trivial: at least one block boundary was crossed. Distinct: distinct (scenario hash, event-log hash) pairs among the non-trivial runs.",
+	"C11": "Each case is one simulated run drawn from mix(VERIF_SEED,i), of three kinds. A: 2-8 client tasks, each 1-3 pipelines parse -> 0-6 operations (print, print inside PHP state, dump x4 option sets, traverse with a recording visitor, traverse with visitor.Null, resolve names); B: the same pipelines pushed through a model of the CLI topology (producer, K parser workers, one consumer, bounded queues) so that trees cross tasks; C: the real cmd/php-parser program (its main, worker goroutines, channels, WaitGroup, flags) over 1-12 real files in a scratch directory. Inputs are composed from the corpus (mixed, or all from one feature class), with versions 5.0-7.4 or nil, callback on/off, shared or private version pointer, block-size knob, forced-GC steps; in 30% of A/B runs a quarter of the operations are cut short by a writer fault or visitor abort. A seeded scheduler (run-to-completion / random preemption / PCT / site-biased) decides every task switch at instrumented yield points. Every run is followed by the same work alone in the same process and, if nothing was wrong, by up to 10 of its pipelines (files) each alone in a fresh process. Non-trivial: >=2 pipelines (files) and >=1 preemptive switch to another task inside the code under test. Distinct: distinct (scenario hash, event-log hash) pairs among the non-trivial runs.",
+	"C13": "Each case is one simulated run: one corpus-composed input, a reference table (every operation kind - print, print inside PHP state, dump x4 option sets, traverse with a recording visitor, traverse with visitor.Null, resolve - on its own freshly parsed tree, computed twice) and a drawn history of 1-24 such operations on ONE tree; odd seeds additionally inject writer faults (error, sticky error, short write, panic at a drawn Write call), visitor aborts and forced GC. After every operation: output equals the table (a faulted operation: accepted bytes are a prefix), fingerprint of the tree's exported fields and of the source buffer unchanged. One table entry per run is recomputed alone in a fresh process. Non-trivial: >=2 operations executed and at least one operation follows an operation of a different kind. Distinct: distinct (scenario hash, event-log hash) pairs among the non-trivial runs.",
+	"C18": "Each case is one simulated run, of two kinds. pools: 1-4 tasks each owning 1-3 token/position pools with a drawn block size (1-64 dense, and 100..4096), executing drawn get/write/verify/gc operations against a reference model of every object ever returned (non-nil, never returned twice by any pool of the run, a stamp written through one object never changes another), tasks interleaved at yield points inside Pool.Get and NewPool; the race detector blinded to hand-overs reports memory shared between two tasks' pools. parse: 1-3 tasks parse corpus inputs with DefaultBlockSize set to a drawn value (1..1025), compared with the same parse at the compiled-in size. Non-trivial: at least one block boundary was crossed. Distinct: distinct (scenario hash, event-log hash) pairs among the non-trivial runs.",
 }
 
 func sortedInts(m map[int]bool) []int {
